@@ -220,9 +220,9 @@ func c06judge(c c06case) (kind, detail string) {
 }
 
 func c06run(w *report.W) {
-	maxNodes := 5
+	maxNodes := 6
 	if w.Thorough() {
-		maxNodes = 7
+		maxNodes = 8
 	}
 	forests := c06forests(maxNodes, 4)
 	w.P.Bounds["forests"] = fmt.Sprintf("%d ordered forests of <=%d nodes over {C,N,U,G}, group depth <=4", len(forests), maxNodes)
@@ -275,7 +275,7 @@ func c06run(w *report.W) {
 func init() {
 	register(&report.Check{
 		ID: "C06",
-		Rule: "every ordered forest of <=5 (quick) / <=7 (thorough) nodes over {command, other known step (wait/input/trigger cycled), unknown, group}, groups nested to depth 4, " +
+		Rule: "every ordered forest of <=6 (quick) / <=8 (thorough) nodes over {command, other known step (wait/input/trigger cycled), unknown, group}, groups nested to depth 4, " +
 			"command steps carrying step env variants (none, {A}, {C}, {A,C}, empty; rotated), plugins or a matrix; x pipeline env in {{A,B}, nil, {}, {A}, {B}} and all rotations for forests of <=4 nodes; " +
 			"EdDSA everywhere, ES512 / PS512 / ES256 crypto.Signer on forests of <=3 nodes. Oracle: unknown anywhere => error; else every command step at every depth is signed, verifies, names the key's " +
 			"algorithm, signed fields == sorted(5 mandatory + env::N for pipeline vars not shadowed by the step); deep snapshot and JSON of the steps minus signatures unchanged; caller's env map snapshot unchanged. " +
